@@ -159,6 +159,33 @@ package stdlib
 //@   assert at "return ret.String()" : lb_ok(addrof(ret)) && lb_elems(addrof(ret)) == sp_idx(addrof(splitter)) && splitter.next < 0
 //@   loop 1 invariant len(splitter.Delim) >= 1 && splitter.next <= len(splitter.S) && mapper != nil
 //@   loop 1 invariant lb_ok(addrof(ret)) && lb_elems(addrof(ret)) >= 1 && lb_elems(addrof(ret)) == sp_idx(addrof(splitter))
+// value level: the result is the mapped elements of arr (split at delim), in order, joined by the
+// joiner. mapr(m, o) names what the mapper yields for o (it is a function of its argument during
+// one call: assumed, functype); map_from(m, S, D, J, acc, p): the final text when acc is written and
+// the elements from offset p on are still to come
+//@   ensures [empty] arr == "" ==> result == mapr(mapper, "")
+//@   ensures [mapped] arr != "" ==> result == map_from(mapper, arr, delim, joiner, mapr(mapper, el_at(arr, delim, 0)), nxt_at(arr, delim, 0))
+//@   loop 1 invariant splitter.S == arr && splitter.Delim == delim
+//@   loop 1 invariant map_from(mapper, arr, delim, joiner, sb_content(addrof(ret)), splitter.next) == map_from(mapper, arr, delim, joiner, mapr(mapper, el_at(arr, delim, 0)), nxt_at(arr, delim, 0))
+//@ smt
+//@ (declare-fun mapr (Int Str) Str)
+//@ (define-fun-rec map_from ((mf!m Int) (mf!s Str) (mf!d Str) (mf!j Str) (mf!acc Str) (mf!p Int)) Str
+//@   (ite (< mf!p 0) mf!acc (map_from mf!m mf!s mf!d mf!j (scat (scat mf!acc mf!j) (mapr mf!m (el_at mf!s mf!d mf!p))) (nxt_at mf!s mf!d mf!p))))
+//@ end
+//@ functype func(o string) string
+//@   params (this, o)
+//@   ensures result == mapr(this, o)
+// {@split s d} / {@join arr d}: the elements of the input (split at d resp. at the list separator)
+// handed to the identity mapper and re-joined with the list separator resp. d. The identity
+// mapper's body returns its argument (proved below); that mapr(arrayOperatorNoopMapper, o) names
+// what that body returns is the meaning of mapr.
+//@ func init$noopmapper at "var arrayOperatorNoopMapper = func(s string) string { return s }"
+//@   pure
+//@   ensures result == s
+//@ func kfArraySplit$1
+//@   assert at "return arrayOperator(" : $arg0 == app((*args)[0], context) && $arg1 == *byVal && $arg2 == "\x00" && $arg3 == arrayOperatorNoopMapper
+//@ func kfArrayJoin$1
+//@   assert at "return arrayOperator(" : $arg0 == app((*args)[0], context) && $arg1 == "\x00" && $arg2 == *delim && $arg3 == arrayOperatorNoopMapper
 
 // {@select arr i}: the element returned is number i (counting from the end for negative i)
 //@ func kfArraySelect$1
